@@ -666,9 +666,14 @@ func emitLargeCases(c *Ctx, progs []*Prog) {
 		idx := o.AddCase(Case{Key: "large:" + p.Desc, Desc: fmt.Sprintf("%s (%d nodes) => %s", p.Desc, len(p.Nodes), st), Input: map[string]any{"prog": p.Desc, "nodes": len(p.Nodes)}, Nontrivial: true})
 		name := fmt.Sprintf("Large%02d.v", k)
 		var b strings.Builder
-		b.WriteString(progHeader + "From Avo Require Import Model.Check.\n")
+		b.WriteString(progHeader + "From Avo Require Import Model.Check Model.Cert.\n")
 		fmt.Fprintf(&b, "Definition cases : list pcase := [(%s,\n   %s)].\n", p.Coq(), ob.Coq())
 		fmt.Fprintf(&b, "Definition e2e : list e2e_t := [(%d, %s, %s, %d)].\n", ec, cPairs(ea), cNodes(en), el)
+		if rk, ok := rankCertificate(ob.AfterZext, ob.Succs, ob.LiveIn); ok && ob.LiveIn != nil {
+			fmt.Fprintf(&b, "Definition ranks : list rank_t := %s.\n", rk)
+			fmt.Fprintf(&b, "Definition R_large_exact_violation := Eval vm_compute in List.map (N.add %d) (where_not (fun c => cert_exact_ok ranks (snd c)) cases).\nPrint R_large_exact_violation.\n", idx)
+			o.ExpectEmpty(name, "R_large_exact_violation", "violation", "a register byte is reported live before (or after) an instruction of a large function although no path from there reads it before it is overwritten")
+		}
 		for _, ck := range []struct{ name, expr, desc string }{
 			{"R_large_live_violation", "where_not (fun c => cert_live_ok (snd c)) cases", "the live sets the pipeline computed for a large function are not closed under the dataflow inclusions: a register byte that can still be read is not reported live"},
 			{"R_large_alloc_violation", "where_not (fun c => cert_alloc_ok regs (snd c)) cases", "the allocation of a large function is invalid: unmapped / wrong class / restricted register, or a definition lands on storage that is live after it"},
